@@ -2045,7 +2045,11 @@ def do_join(interp, sep, seq, state, node):
             return T.concat(*parts)
         if all(isinstance(i, str) for i in items) and not more:
             return ''.join(items)
-    return Sym('join', sep, tuple(_t(i) for i in items))
+    parts = tuple(_t(i) for i in items)
+    if more:
+        # the elements a summarised loop / generator may still add
+        parts += (Sym('more', more if isinstance(more, Ref) else seq),)
+    return Sym('join', sep, parts)
 
 
 def call_container_method(interp, ref, name, args, kwargs, state, node):
